@@ -91,6 +91,72 @@ Definition pong : list N :=
   [6; 0; 0xff; 6; 0; 0; 0x11; 0xbe; 0x40; 0; 0; 0x10; 0; 0; 0x11; 0xbe; 0; 0; 0; 0; 0x81; 0; 0; 0; 0; 0; 0; 0].
 Definition ping_dgram : list N := [6; 0; 0xff; 6; 0; 0; 0x11; 0xbe; 0x80; 0; 0; 0].
 
+(* the rules, on a parsed datagram pp carrying the IPMB request (netfn, lun, cmd, data) *)
+Definition bmc_logic (p : bmcp) (s : bstate) (pp : parsed) (netfn lun cmd : N) (data : list N) : bstate * lreply :=
+  if (netfn =? 6) && (cmd =? 0x38) then
+    let rsp := LData [0; 1; b_caps p; 0; 0; 0; 0; 0; 0] in
+    match b_ph s with
+    | P1 =>
+      if negb (null_hdr pp) then (flag s P2 V_PRESESSION_HDR, rsp)
+      else match data with
+           | [c; pr] => if (N.land c 0xf =? 0xe) && (pr =? b_priv p)
+                        then (mkB P2 (b_viol s) (b_cnt s), rsp) else (flag s P2 V_CAPS_REQ, rsp)
+           | _ => (flag s P2 V_CAPS_REQ, rsp)
+           end
+    | _ => (flag s P2 V_ORDER, rsp)
+    end
+  else if (netfn =? 6) && (cmd =? 0x39) then
+    match data with
+    | a :: user =>
+      let rsp := LData ([0] ++ le_bytes 4 (b_tmp p) ++ b_chal p) in
+      match b_ph s with
+      | P2 =>
+        if negb (null_hdr pp) then (flag s (P3 a) V_PRESESSION_HDR, rsp)
+        else if match best (b_caps p) with Some b => negb (a =? b) | None => false end
+          then (flag s (P3 a) V_AUTH_CHOICE, rsp)
+        else if negb (bytes_eqb user (zpad16 (b_user p))) then (flag s (P3 a) V_USER, rsp)
+        else (mkB (P3 a) (b_viol s) (b_cnt s), rsp)
+      | _ => (flag s (P3 a) V_ORDER, rsp)
+      end
+    | [] => (flag s (b_ph s) V_MALFORMED, LData [0xc7])
+    end
+  else if (netfn =? 6) && (cmd =? 0x3a) then
+    match b_ph s with
+    | P3 a =>
+      let rsp := LData ([0; a] ++ le_bytes 4 (b_sid p) ++ le_bytes 4 (b_init p) ++ [b_priv p]) in
+      let ph := P4 a None in
+      if negb ((p_auth pp =? a) && (le_val (p_sidb pp) =? b_tmp p)) then (flag s ph V_ACT_HDR, rsp)
+      else if negb (bytes_eqb (p_code pp) (bmc_code a (b_pw p) (p_sidb pp) (p_seqb pp) (p_frame pp)))
+        then (flag s ph V_ACT_CODE, rsp)
+      else if negb (Nat.eqb (length data) 22 && (nth 0 data 0 =? a) && (nth 1 data 0 =? b_priv p)
+                    && bytes_eqb (firstn 16 (skipn 2 data)) (b_chal p))
+        then (flag s ph V_ACT_DATA, rsp)
+      else (mkB ph (b_viol s) (b_cnt s), rsp)
+    | _ => (flag s (b_ph s) V_ORDER, LData [0x81])
+    end
+  else
+    match b_ph s with
+    | P4 a last =>
+      let seq := le_val (p_seqb pp) in
+      let ph := P4 a (Some seq) in
+      let s1 :=
+        if negb ((p_auth pp =? a) && (le_val (p_sidb pp) =? b_sid p)) then flag s ph V_SESS_HDR
+        else if negb (seq_ok (b_init p) last seq) then flag s ph V_SEQ
+        else if negb (bytes_eqb (p_code pp) (bmc_code a (b_pw p) (p_sidb pp) (p_seqb pp) (p_frame pp)))
+          then flag s ph V_CODE
+        else mkB ph (b_viol s) (b_cnt s + 1) in
+      if (netfn =? 6) && (cmd =? 0x3b) then
+        match data with
+        | [pr] => if pr =? b_priv p then (s1, LData [0; pr]) else (flag s1 ph V_PRIV, LData [0; pr])
+        | _ => (flag s1 ph V_PRIV, LData [0xc7])
+        end
+      else if (netfn =? 6) && (cmd =? 0x3c) then
+        if bytes_eqb data (le_bytes 4 (b_sid p)) then (mkB P5 (b_viol s1) (b_cnt s1), LData [0])
+        else (flag s1 ph V_CLOSE_ID, LData [0x87])
+      else (s1, LData (0 :: data))
+    | _ => (flag s (b_ph s) V_ORDER, LTimeout)
+    end.
+
 Definition bmc_step (p : bmcp) (s : bstate) (dg : list N) : bstate * lreply :=
   if bytes_eqb dg ping_dgram then (mkB P1 (b_viol s) (b_cnt s), LData pong)
   else
@@ -99,70 +165,7 @@ Definition bmc_step (p : bmcp) (s : bstate) (dg : list N) : bstate * lreply :=
   | Some pp =>
     match ipmb_parse (p_frame pp) with
     | None => (flag s (b_ph s) V_MALFORMED, LTimeout)
-    | Some (netfn, lun, cmd, data) =>
-      if (netfn =? 6) && (cmd =? 0x38) then
-        let rsp := LData [0; 1; b_caps p; 0; 0; 0; 0; 0; 0] in
-        match b_ph s with
-        | P1 =>
-          if negb (null_hdr pp) then (flag s P2 V_PRESESSION_HDR, rsp)
-          else match data with
-               | [c; pr] => if (N.land c 0xf =? 0xe) && (pr =? b_priv p)
-                            then (mkB P2 (b_viol s) (b_cnt s), rsp) else (flag s P2 V_CAPS_REQ, rsp)
-               | _ => (flag s P2 V_CAPS_REQ, rsp)
-               end
-        | _ => (flag s P2 V_ORDER, rsp)
-        end
-      else if (netfn =? 6) && (cmd =? 0x39) then
-        match data with
-        | a :: user =>
-          let rsp := LData ([0] ++ le_bytes 4 (b_tmp p) ++ b_chal p) in
-          match b_ph s with
-          | P2 =>
-            if negb (null_hdr pp) then (flag s (P3 a) V_PRESESSION_HDR, rsp)
-            else if match best (b_caps p) with Some b => negb (a =? b) | None => false end
-              then (flag s (P3 a) V_AUTH_CHOICE, rsp)
-            else if negb (bytes_eqb user (zpad16 (b_user p))) then (flag s (P3 a) V_USER, rsp)
-            else (mkB (P3 a) (b_viol s) (b_cnt s), rsp)
-          | _ => (flag s (P3 a) V_ORDER, rsp)
-          end
-        | [] => (flag s (b_ph s) V_MALFORMED, LData [0xc7])
-        end
-      else if (netfn =? 6) && (cmd =? 0x3a) then
-        match b_ph s with
-        | P3 a =>
-          let rsp := LData ([0; a] ++ le_bytes 4 (b_sid p) ++ le_bytes 4 (b_init p) ++ [b_priv p]) in
-          let ph := P4 a None in
-          if negb ((p_auth pp =? a) && (le_val (p_sidb pp) =? b_tmp p)) then (flag s ph V_ACT_HDR, rsp)
-          else if negb (bytes_eqb (p_code pp) (bmc_code a (b_pw p) (p_sidb pp) (p_seqb pp) (p_frame pp)))
-            then (flag s ph V_ACT_CODE, rsp)
-          else if negb (Nat.eqb (length data) 22 && (nth 0 data 0 =? a) && (nth 1 data 0 =? b_priv p)
-                        && bytes_eqb (firstn 16 (skipn 2 data)) (b_chal p))
-            then (flag s ph V_ACT_DATA, rsp)
-          else (mkB ph (b_viol s) (b_cnt s), rsp)
-        | _ => (flag s (b_ph s) V_ORDER, LData [0x81])
-        end
-      else
-        match b_ph s with
-        | P4 a last =>
-          let seq := le_val (p_seqb pp) in
-          let ph := P4 a (Some seq) in
-          let s1 :=
-            if negb ((p_auth pp =? a) && (le_val (p_sidb pp) =? b_sid p)) then flag s ph V_SESS_HDR
-            else if negb (seq_ok (b_init p) last seq) then flag s ph V_SEQ
-            else if negb (bytes_eqb (p_code pp) (bmc_code a (b_pw p) (p_sidb pp) (p_seqb pp) (p_frame pp)))
-              then flag s ph V_CODE
-            else mkB ph (b_viol s) (b_cnt s + 1) in
-          if (netfn =? 6) && (cmd =? 0x3b) then
-            match data with
-            | [pr] => if pr =? b_priv p then (s1, LData [0; pr]) else (flag s1 ph V_PRIV, LData [0; pr])
-            | _ => (flag s1 ph V_PRIV, LData [0xc7])
-            end
-          else if (netfn =? 6) && (cmd =? 0x3c) then
-            if bytes_eqb data (le_bytes 4 (b_sid p)) then (mkB P5 (b_viol s1) (b_cnt s1), LData [0])
-            else (flag s1 ph V_CLOSE_ID, LData [0x87])
-          else (s1, LData (0 :: data))
-        | _ => (flag s (b_ph s) V_ORDER, LTimeout)
-        end
+    | Some (netfn, lun, cmd, data) => bmc_logic p s pp netfn lun cmd data
     end
   end.
 
